@@ -41,6 +41,8 @@ impl Tier {
 
 thread_local! {
     static LAST_PANIC: RefCell<Option<String>> = const { RefCell::new(None) };
+    /// known findings in force for coverage-guided runs (set by fuzz::init)
+    pub static FUZZ_KNOWN: RefCell<Vec<Known>> = const { RefCell::new(Vec::new()) };
 }
 
 pub fn install_panic_hook() {
@@ -283,6 +285,14 @@ pub trait Part: Sync {
     fn name(&self) -> &'static str;
     fn run(&self, env: &Env) -> PartReport;
     fn replay(&self, case: &Value, tier: Tier) -> Result<(), String>;
+    /// coverage-guided entry: decode `data` into a case through the part's own strategy
+    /// (proptest pass-through RNG) and judge it; None = held / not applicable
+    fn fuzz_one(&self, _data: &[u8], _tier: Tier) -> Option<Failure> {
+        None
+    }
+    fn fuzzable(&self) -> bool {
+        false
+    }
 }
 
 /// Generated part: proptest strategy + oracle.
@@ -292,6 +302,8 @@ pub struct GenPart<C: 'static> {
     pub cases: (u64, u64),
     pub strategy: fn(Tier) -> BoxedStrategy<C>,
     pub check: fn(&C, &mut Stats) -> Result<(), String>,
+    /// hand-written decoder libFuzzer bytes -> case (None: the part is not fuzzed coverage-guided)
+    pub fuzz_decode: Option<fn(&[u8]) -> C>,
     pub required_classes: &'static [&'static str],
 }
 
@@ -411,6 +423,25 @@ where
         st.recording = false;
         run_check(self.check, &c, &mut st)
     }
+
+    fn fuzzable(&self) -> bool {
+        self.fuzz_decode.is_some()
+    }
+
+    fn fuzz_one(&self, data: &[u8], tier: Tier) -> Option<Failure> {
+        let dec = self.fuzz_decode?;
+        let c = match guard(|| dec(data)) {
+            Ok(c) => c,
+            Err(p) => return Some(Failure { part: self.name.to_string(), case: Value::Null, message: format!("[harness-decoder-panic] {}", p.0) }),
+        };
+        let known = FUZZ_KNOWN.with(|k| k.borrow().clone());
+        let mut st = Stats::new(tier, known);
+        st.recording = false;
+        match run_check(self.check, &c, &mut st) {
+            Ok(()) => None,
+            Err(m) => Some(Failure { part: self.name.to_string(), case: serde_json::to_value(&c).unwrap_or(Value::Null), message: m }),
+        }
+    }
 }
 
 /// Enumerated part: indices 0..size(tier), each decoded by the oracle itself.
@@ -525,7 +556,7 @@ pub fn verif_root() -> String {
     std::env::var("VERIF_ROOT").unwrap_or_else(|_| "/verif".to_string())
 }
 
-fn write_replay(prop: &str, tier: Tier, seed: u64, f: &Failure) -> String {
+pub fn write_replay(prop: &str, tier: Tier, seed: u64, f: &Failure) -> String {
     let root = verif_root();
     let dir = format!("{}/replays/{}", root, prop);
     let _ = std::fs::create_dir_all(&dir);
